@@ -193,6 +193,27 @@ def o_disulfide_with_selection(ctx):
         ctx.claim('bridged-reports-99.99', eq(g.pka_value, 99.99))
 
 
+def o_bonds_per_conformation(ctx):
+    """every conformation's bonds come from its own coordinates: two MODELs with identical atom lists in which the
+    disulfide is closed in one and open in the other (one SG moved by 3 A), in either order"""
+    from . import micro as M
+    t = M.text('pair_CYS_CYS_bridge')
+    opened = M.moved(t, 58, 'SG', (0.0, 3.0, 0.0))
+    order = ctx.choice('open_in_model', [2, 1])
+    mol = M.run(M.models(*( [t, opened] if order == 2 else [opened, t])))
+    names = list(mol.conformation_names)
+    ctx.claim('two-conformations', len(names) == 2)
+    for i, n in enumerate(names):
+        is_open = (i + 1 == order)
+        sgs = [a for a in mol.conformations[n].atoms if a.name == 'SG']
+        d2 = (sgs[0].x - sgs[1].x) ** 2 + (sgs[0].y - sgs[1].y) ** 2 + (sgs[0].z - sgs[1].z) ** 2
+        bonded = sgs[1] in sgs[0].bonded_atoms
+        ctx.claim('ss-bond-from-own-coordinates', bonded == (d2 < 6.25) and bonded == (not is_open), detail='%s: S-S %.2f A, bonded=%r' % (n, d2 ** 0.5, bonded))
+        ctx.claim('bridge-flags-from-own-coordinates', all(bool(a.cysteine_bridge) == bonded for a in sgs))
+        cys = [g for g in mol.conformations[n].groups if g.type == 'CYS']
+        ctx.claim('titrated-iff-not-bridged', all(bool(g.titratable) == is_open for g in cys), detail='%s: %r' % (n, [(g.label, g.titratable) for g in cys]))
+
+
 # -- floating-point lemma ------------------------------------------------------
 
 def _hexbits(x):
@@ -296,6 +317,9 @@ def obligations(tier):
                           code=['propka/conformation_container.py:ConformationContainer.init_group', 'propka/group.py:Group.setup', 'propka/group.py:Group.calculate_total_pka'],
                           bounds='bridge flag in {0,1} x --titrate_only absent / naming the residue / naming another / empty', kind='table-check',
                           claim_doc='titratable iff free and selected; a bridged cysteine is never titrated and reports 99.99'))
+    obs.append(Obligation('O5-bonds-per-conformation', o_bonds_per_conformation, code=['propka/bonds.py:BondMaker.find_bonds_for_molecules_using_boxes', 'propka/hydrogens.py:setup_bonding', 'propka/run.py:single (whole pipeline)'],
+                          bounds='two-MODEL file from the disulfide micro-structure, the S-S bond open (one SG moved 3 A) in MODEL 2 or MODEL 1', kind='table-check',
+                          claim_doc='in each conformation the S-S bond, the bridge flags and the titratability of the cysteines follow from that conformation\'s coordinates'))
     return obs
 
 
